@@ -76,6 +76,8 @@ type Config struct {
 	LongIDs bool `json:"long_ids,omitempty"`
 	// TraceLog: the process log level is TRACE (otherwise INFO)
 	TraceLog bool `json:"trace_log,omitempty"`
+	// ScratchReads: the stores hand out storage values as views of one reusable read buffer
+	ScratchReads bool `json:"scratch_reads,omitempty"`
 }
 
 // Event is one step of a run; a replay file is a Config plus a list of Events.
@@ -485,6 +487,19 @@ func Rebuild(fn string, args [][]byte, ops []string) string {
 		kept = b.ToBytes()
 		b.Clear()
 	}
+	// a second builder is in use at the same time (an outer call whose argument another builder makes)
+	var finishSecond func() string
+	if extra["two"] {
+		b2 := txDataBuilder.NewBuilder()
+		b2.Func("inner").Str("x")
+		finishSecond = func() string {
+			b2.Int(5).Str("y")
+			if got := b2.ToString(); got != "inner@78@05@79" {
+				return fmt.Sprintf("a second builder used at the same time produced %q instead of \"inner@78@05@79\"", got)
+			}
+			return ""
+		}
+	}
 	b.Func(fn)
 	skip := 0
 	if extra["helper"] {
@@ -556,6 +571,11 @@ func Rebuild(fn string, args [][]byte, ops []string) string {
 			}
 		default:
 			b.Bytes(a)
+		}
+	}
+	if finishSecond != nil {
+		if problem := finishSecond(); problem != "" {
+			return problem
 		}
 	}
 	out := b.ToString()
